@@ -348,3 +348,45 @@ func checkSharedHandlers(c *core.Ctx, handlers []handlerRef) {
 		}
 	}
 }
+
+// R03.26: inline float constants have the width of the operand they stand for.
+func checkInlineFloatWidth(c *core.Ctx, prov *core.Prov) {
+	st := c.Rule("R03.26", "an inline floating-point constant (0.5, 1.0, 2.0, 4.0, 1/2pi and their negatives) stands for a single-precision value in a 32-bit source and for a double-precision value in a 64-bit source: every operand accessor of both register stores (ReadOperand, ReadOperandBytes) that converts Operand.FloatValue with math.Float32bits also has a path that converts it with math.Float64bits, selected by the operand's register count", 4)
+	for _, site := range []struct{ pkg, fn string }{{emuPkg, "Wavefront.ReadOperand"}, {emuPkg, "Wavefront.ReadOperandBytes"}, {wfPkg, "Wavefront.ReadOperand"}, {wfPkg, "Wavefront.ReadOperandBytes"}} {
+		fn := c.SSAFunc(site.pkg, site.fn)
+		if fn == nil {
+			continue
+		}
+		has32, has64 := false, false
+		for _, b := range fn.Blocks {
+			for _, in := range b.Instrs {
+				call, ok := in.(*ssa.Call)
+				if !ok {
+					continue
+				}
+				cal := call.Call.StaticCallee()
+				if cal == nil || cal.Pkg == nil || cal.Pkg.Pkg.Path() != "math" || len(call.Call.Args) != 1 {
+					continue
+				}
+				if !strings.Contains(prov.Of(call.Call.Args[0]), ".FloatValue") {
+					continue
+				}
+				switch cal.Name() {
+				case "Float32bits":
+					has32 = true
+				case "Float64bits":
+					has64 = true
+				}
+			}
+		}
+		if !has32 && !has64 {
+			continue
+		}
+		st.Instances++
+		c.MarkAnalysed(fn)
+		st.Ob(has32 && has64)
+		if !(has32 && has64) {
+			c.ReportAt("R03.26", fn, fn.Pos(), "inline-float-one-width:"+site.pkg+"."+site.fn, site.fn+" converts an inline floating-point constant to single-precision bits only: in a 64-bit floating-point instruction `v_fma_f64 d, 2.0, 3.0, 1.0` the sources are read as 0x40000000 ... (denormal doubles) instead of the doubles 2.0, 3.0, 1.0")
+		}
+	}
+}
